@@ -101,8 +101,8 @@ CLAIMS = {
  'C20': dict(
   category='proof',
   technique='zone abstract interpretation of parseLazyImpl and its sibling site (E3), dominance on the ownership flag (E2)',
-  text=("Decides ONLY the clause 'keys are matched by their decoded value': the escaped key is decoded from a private copy that reaches the closing quote found by SkipString and has VEC_LEN-1 bytes of slack; "
-        "both sibling sites (parser.h, simd_skip.h) satisfy it; the key node is told it owns the buffer exactly when one was allocated; a decode error frees the buffer. NOT decided: the merge semantics."),
+  text=("Decides the clause 'keys are matched by their decoded value' and the merge skeleton: the escaped key is decoded from a private copy that reaches the closing quote found by SkipString and has VEC_LEN-1 bytes of slack; "
+        "both sibling sites (parser.h, simd_skip.h) satisfy it; the key node is told it owns the buffer exactly when one was allocated; a decode error frees the buffer. Also the skeleton of UpdateNodeLazy: the replace-or-merge decision replaces exactly when NOT(target object AND source object AND target non-empty) over all 16 assignments of its four tests; every loop iteration over [source.MemberBegin(), MemberEnd()) appends or recursively merges its member before advancing; success is returned only after the replacement or the completed loop; each lazily parsed slice gets a fresh Parser (scanner cache is per buffer). NOT decided: the merge semantics end to end."),
   note='Trusted: clang 14 front end; C11 callee summaries; parseStringInplace contract.',
   design='5/C20'),
  'C05': dict(
